@@ -23,15 +23,19 @@ META = dict(
               'validated against the CPython built-ins (exhaustive slice.indices, generated histories); step-level correspondence of the model against pg.List/pg.Dict '
               'with read-back after every step; differential oracle against a plain list/dict driven by the same operation',
     design_ref='DESIGN.md §5 C02, design/C02.md',
-    level_text=('Theorems: for every well-formed state and every plain operation of the list/dict API (everything but the four documented extensions), the erasure of the '
-                'target after the model step equals the Python reference step on the erasure before, with the same return value / error class; by induction for every '
-                'finite history; the four documented extensions as equations; the read API (len, indexing, slicing, in/index/count, ==, keys, to_json) computed on a tree '
+    level_text=('Theorems (22): for a pg.List / pg.Dict at ANY position of a well-formed forest (C01\'s full invariant) and plain arguments, every operation of the list/dict '
+                'API -- all 15 list and 9 dict operations of the base catalogue, slice assignment / deletion with any start/stop/step, d | m, m | d, rebind with one or several '
+                'paths of any length (applied highest path first on lists; nested update of the plain value) -- leaves the erasure of the target equal to the Python reference '
+                'step on the erasure before, with the same return value / error class, and re-establishes the invariants; by induction for every finite history, also from any '
+                'constructed literal; the four documented extensions as equations; the read API (len, indexing, slicing, in/index/count, ==, keys, to_json) computed on a tree '
                 'equals the same computed on its erasure. Tie: (a) PyList/PyDict vs the built-in list/dict (slice.indices for every start/stop/step in -7..7 or None on '
-                'lengths 0..6, generated histories over the whole API); (b) SymCoreC02.run vs pg.List/pg.Dict on generated histories incl. read-back after every step; '
-                '(c) direct differential oracle on every step plus systematic slice sweeps.'),
+                'lengths 0..6, every slice shape on short lists, generated histories over the whole API); (b) SymCoreC02.run vs pg.List/pg.Dict on generated histories incl. '
+                'read-back after every step, a multi-path rebind sweep on lists of 0..13 elements; (c) direct differential oracle on every step plus systematic slice, '
+                'update-key, iterable-kind and aliasing sweeps.'),
     level_note=('Trusted: Coq kernel; extraction (ExtrOcamlBasic) cross-checked against vm_compute; the drivers and generators. Modelled, not verified: the Python code '
-                '(tied by the correspondence only). Not modelled: value specs (C03), change events (C09), pg.Ref / inferential values, sort with a user key function that '
-                'raises, non-list iterables as slice values.'),
+                '(tied by the correspondence only). Proved only for plain (literal) arguments: arguments that are existing symbolic nodes (adopted or copied at write time), '
+                'opaque objects as written values and MISSING_VALUE written into a list by rebind are covered by the correspondence and the oracle only. Not modelled: value '
+                'specs (C03), change events (C09), pg.Ref / inferential values, sort with a user key function that raises.'),
     rule='a case is a history (initial contents, list of operations [with scopes and read-back probes]) or one slice.indices query; distinct by canonical text; '
          'non-trivial when at least one mutating operation succeeds on a non-empty container',
     trusted_base=['extraction: ExtrOcamlBasic only; ocaml/main.ml lexer/printer; cross-checked against vm_compute on a sample',
@@ -1267,9 +1271,15 @@ def run(ctx):
   for c in cases_a:
     ctx.count(trlib.to_line(c), nontrivial=(c[0] == 2 or len(c[1]) > 0), kind=('reference-list', 'reference-dict', 'slice-indices')[c[0]])
   ctx.extra['slice_indices_exhaustive'] = dict(lengths='0..6', bounds='None, -7..7', cases=len(ind))
-  # ---- systematic sweeps on the real objects
+  # ---- systematic sweeps on the real objects (within the wall-clock budget of the tier, counted from the end of the build)
   t2 = time.time()
-  sweep_slices(ctx, ctx.scale(3, 6))
+  budget = ctx.scale(90, 1300)
+  skipped = []
+  ctx.extra['skipped_for_time'] = skipped
+  if time.time() - t0 > budget:
+    skipped.append('slice sweep on pg.List (slice shapes are still covered by the reference sweep and the generated histories)')
+  else:
+    sweep_slices(ctx, ctx.scale(3, 6) if time.time() - t0 < budget / 2 else 2)
   for sig, what in binary_checks():
     ctx.hit(sig, what, dict(kind='binary-checks'))
   uh, un = update_sweep()
